@@ -307,6 +307,14 @@ namespace {
    {
       const std::string c = "C07:" + hw.container + ":";
       const std::size_t n = made.size();
+      // the member added last is read FIRST, directly by position (the previous examination ended with a refused read at the
+      // then size(): a refused access must leave nothing behind that this one trips over)
+      if (n > 0) {
+         rep.count("transitions");
+         try { if (&*members.position(n - 1) != made[n - 1]) { hfail(c + "order", hw, "the member added last, read directly by its position right after an out-of-range read was refused, is not the one that was added"); return; } }
+         catch (const std::exception& e) { hfail(c + "valid-position-refused", hw, std::string("reading the member added last by its position is refused: ") + e.what()); return; }
+      }
+      struct Refused_read_at_size { const ipr::Sequence<D>& m; std::size_t n; ~Refused_read_at_size() { try { (void) &*m.position(n + 1); } catch (...) { } try { (void) &*m.position(n); } catch (...) { } } } leave_a_refusal_behind{ members, n };
       if (members.size() != n or scope.size() != n) { hfail(c + "size", hw, "the container reports " + std::to_string(members.size()) + "/" + std::to_string(scope.size()) + " members, " + std::to_string(n) + " were added"); return; }
       std::size_t i = 0;
       for (auto& m : members) { if (&m != made[i]) { hfail(c + "order", hw, "member #" + std::to_string(i) + " is not the one added at that step"); return; } ++i; }
